@@ -142,8 +142,45 @@ pub mod ledger {
             (l, 0)
         }
     }
+    // Bump mode (per thread): blocks are handed out back to back from one region, as a kernel's early allocator does -
+    // the end of one block is the start of the next whenever the alignment allows it.
+    thread_local! {
+        static BUMP: Cell<(usize, usize, usize)> = const { Cell::new((0, 0, 0)) }; // (base, cursor, end); cursor 0 = off
+    }
+    const BUMP_SIZE: usize = 1 << 20;
+    /// Switch bump mode on (the region starts empty again) or off.
+    pub fn bump(on: bool) {
+        BUMP.with(|b| {
+            let (mut base, _, mut end) = b.get();
+            if base == 0 {
+                base = unsafe { System.alloc(Layout::from_size_align_unchecked(BUMP_SIZE, 4096)) } as usize;
+                end = base + BUMP_SIZE;
+            }
+            b.set((base, if on { base } else { 0 }, end));
+        });
+    }
+    fn in_bump(p: usize) -> bool {
+        BUMP.try_with(|b| { let (base, _, end) = b.get(); base != 0 && p >= base && p < end }).unwrap_or(false)
+    }
     unsafe impl GlobalAlloc for Counting {
         unsafe fn alloc(&self, l: Layout) -> *mut u8 {
+            if let Ok(Some(p)) = BUMP.try_with(|b| {
+                let (base, cur, end) = b.get();
+                if cur == 0 || l.size() == 0 {
+                    return None;
+                }
+                let p = (cur + l.align() - 1) & !(l.align() - 1);
+                if p + l.size() > end {
+                    return None;
+                }
+                b.set((base, p + l.size(), end));
+                Some(p as *mut u8)
+            }) {
+                std::ptr::write_bytes(p, 0x11, l.size());
+                let _ = TLIVE.try_with(|c| c.set(c.get() + 1));
+                log(p as usize, l, true);
+                return p;
+            }
             let (bl, off) = backing(l);
             let base = System.alloc(bl);
             if base.is_null() {
@@ -160,6 +197,9 @@ pub mod ledger {
         unsafe fn dealloc(&self, p: *mut u8, l: Layout) {
             let _ = TLIVE.try_with(|c| c.set(c.get() - 1));
             log(p as usize, l, false);
+            if in_bump(p as usize) {
+                return; // the region is recycled as a whole
+            }
             let (bl, off) = backing(l);
             System.dealloc(p.sub(off), bl)
         }
